@@ -158,8 +158,17 @@ def generate(reg, key, budget=None):
                         env1.vars.setdefault("ghost_" + g, it.ghost[g])
                 env1.vars["__ghost__"] = it.ghost
                 for k, e in enumerate(c.ensures):
-                    ctx.oblige("ensures", f"{key}/{tag}ensures[{k}]", truthy(sp.eval(e, env1)),
-                               {"clause": c.ensures_src[k]})
+                    try:
+                        goal = truthy(sp.eval(e, env1))
+                        info = {"clause": c.ensures_src[k]}
+                    except Unsupported as ue:
+                        # the clause is not even defined on the value produced (e.g. result[2] of a 2-tuple):
+                        # it does not hold
+                        if "index out of range in spec" not in str(ue):
+                            raise
+                        goal = F()
+                        info = {"clause": c.ensures_src[k] + f"   [undefined on the produced result: {ue}]"}
+                    ctx.oblige("ensures", f"{key}/{tag}ensures[{k}]", goal, info)
                 # every completed path is evidence against vacuity
                 ctx.oblige("canary", f"{key}/{tag}canary", F(), {"clause": "False (must be refuted)"})
                 return outcome
